@@ -104,11 +104,20 @@ theorem declBase_known (b : FBase) (h : FBaseOk b) : TyKnown (declBase b) := by
   simp only [TyKnown, declBase, declTy, hdt]
   rw [← e]; exact this
 
+/-- every raw name is quoted into `name_regexp` -/
+theorem RawNameOk.quoted {n : Text} (h : RawNameOk n) : NameOk (quoteName n) :=
+  quoteName_nameOk_any n h.ne (fun c hc => ⟨h.noSlash c hc, h.ascii c hc⟩) h.dap4
+
 theorem declBase_ok (b : FBase) (h : FBaseOk b) : BaseOk (declBase b) := by
-  refine ⟨h.name, ?_, ?_⟩
+  refine ⟨h.name.quoted, ?_, ?_⟩
   · intro d hd
-    simp only [declBase, List.mem_filterMap] at hd
-    obtain ⟨e, he, hed⟩ := hd
+    have hd' : d ∈ b.dims.filterMap (·.1) := by
+      simp only [declBase, fitDims] at hd
+      split at hd
+      · exact hd
+      · cases hd
+    simp only [List.mem_filterMap] at hd'
+    obtain ⟨e, he, hed⟩ := hd'
     exact (h.dims e he).2 d hed
   · intro n hn
     simp only [declBase, List.mem_map] at hn
@@ -126,11 +135,11 @@ theorem declT_wf : (t : FTmpl) → FWFT t → WFT (declT t) ∧ PrintableT (decl
     obtain ⟨_, hn, _, hk, hnd⟩ := h
     have ih := declL_wf kids hk
     cases isSeq <;> simp only [declT, Bool.false_eq_true, if_false, if_true, WFT, PrintableT] <;>
-      exact ⟨⟨hn, ih.1, hnd⟩, ih.2⟩
+      exact ⟨⟨hn.quoted, ih.1, hnd⟩, ih.2⟩
   | .grid kw kwA kwM name gs arr maps, h => by
     simp only [FWFT] at h
     simp only [declT, WFT, PrintableT]
-    refine ⟨⟨h.hname, ?_, ?_⟩, by simp, ?_⟩
+    refine ⟨⟨h.hname.quoted, ?_, ?_⟩, by simp, ?_⟩
     · intro b hb
       simp only [List.mem_cons, List.mem_map] at hb
       rcases hb with rfl | ⟨m, hm, rfl⟩
@@ -154,6 +163,6 @@ theorem declL_wf : (ts : List FTmpl) → FWFL ts → WFL (declL ts) ∧ Printabl
 end
 
 theorem declDs_wf (d : FDataset) (h : FWFds d) : WFds (declDs d) ∧ PrintableL (declDs d).kids :=
-  ⟨⟨h.hname, (declL_wf d.kids h.hkids).1, h.hnodup⟩, (declL_wf d.kids h.hkids).2⟩
+  ⟨⟨h.hname.quoted, (declL_wf d.kids h.hkids).1, h.hnodup⟩, (declL_wf d.kids h.hkids).2⟩
 
 end Pydap.Dds
